@@ -33,7 +33,10 @@ pub async fn get_request_addr(stream: &mut TcpStream) -> anyhow::Result<Address>
                 let local_addr = stream.local_addr()?;
                 let response = Socks5CommandResponse::new(Socks5CommandStatus::Success, local_addr.into());
                 let handshake = socks5::handshake::server::no_auth(stream, response).await?;
-                Ok(handshake.dst_addr)
+                match handshake.dst_addr {
+                    Address::Domain(host, port) => domain(&host, port),
+                    addr => Ok(addr),
+                }
             }
             Proxy::Unknown => bail!("unknown type of handshake"),
             Proxy::Error(msg) => bail!(msg),
@@ -77,9 +80,8 @@ fn recognize_http(method: &str, mut path: &str) -> Result<Proxy, anyhow::Error> 
     }
     if "CONNECT" == method {
         let h_end = path.rfind(':').ok_or_else(|| anyhow!("invalid http CONNECT uri"))?;
-        let host = path[..h_end].to_owned();
         let port = path[h_end + 1..].parse()?;
-        Ok(Proxy::Https(Address::Domain(host, port)))
+        Ok(Proxy::Https(domain(&path[..h_end], port)?))
     } else {
         let h_end = path.rfind(':');
         let h_v6_end = path.rfind(']');
@@ -99,14 +101,20 @@ fn recognize_http(method: &str, mut path: &str) -> Result<Proxy, anyhow::Error> 
             }
         } {
             let p_start = index + 1;
-            let host = path[..index].to_owned();
             let port = path[p_start..].parse()?;
-            Ok(Proxy::Http(Address::Domain(host, port)))
+            Ok(Proxy::Http(domain(&path[..index], port)?))
         } else {
-            let host = path.to_owned();
-            Ok(Proxy::Http(Address::Domain(host, 80)))
+            Ok(Proxy::Http(domain(path, 80)?))
         }
     }
+}
+
+/// A host name travels with a one-byte length: an empty or over-long one cannot be represented
+fn domain(host: &str, port: u16) -> Result<Address, anyhow::Error> {
+    if host.is_empty() || host.len() > u8::MAX as usize {
+        bail!("invalid host length {}", host.len());
+    }
+    Ok(Address::Domain(host.to_owned(), port))
 }
 
 #[cfg(test)]
